@@ -274,7 +274,6 @@ pub struct Placement {
     pub simulated: BTreeSet<ResourceAddress>,
     pub pre: Vec<Op>,
     pub post: Vec<Op>,
-    pub guided: bool,
 }
 
 /// Instruction recipes realising the needs (each recipe is kept contiguous-in-order, recipes are
@@ -347,7 +346,7 @@ fn recipes(rng: &mut Rng, u: &Universe, needs: &Needs, next_name: &mut usize) ->
 
 /// Generates a placement; returns it with the model state at the time of the protected call.
 pub fn gen_placement(rng: &mut Rng, u: &Universe, needs: Option<&Needs>, allow_simulation: bool) -> (Placement, ZoneModel) {
-    let mut p = Placement { guided: needs.is_some(), ..Default::default() };
+    let mut p = Placement::default();
     match needs {
         Some(n) => {
             for k in &n.sigs {
